@@ -1509,3 +1509,38 @@ fn c05_prefix_status_line_final() {
 fn c05_prefix_status_line_redirect() {
     c05_prefix_case(4);
 }
+
+// =====================================================================================
+// C16 — a header added before send_body_despite_method() survives the conversion
+// =====================================================================================
+
+//@ props: C16 C09
+//@ tier: quick
+//@ unwind: 6
+//@ unwindset: memcmp=12 from_static=20 to_str=12
+//@ timeout: 900
+//@ mem: 24
+//@ encodes: AmendedRequest::set_header, CallHolder::convert_to_send_body, Call::<WithoutBody>::into_send_body, AmendedRequest::headers / headers_len
+//@ vars: concrete: GET http/1.1 without original headers; the caller adds cookie: a in the prepare state, then asks to send a body despite the method
+//@ bounds: one caller-added header
+//@ outside: several additions, redirected flows (URI override, suppression list)
+//@ clause: a header added in the prepare state is still effective after the call was converted to send a body despite the method
+#[kani::proof]
+fn c16_added_header_survives_despite_method() {
+    let mut call: Call<crate::client::call::state::WithoutBody, ()> =
+        ch::mk_call_req(ah::mk_request(0, 2), 0, 0, bh::mk_writer_none(), None, false);
+    call.amended_mut().set_header(http::header::COOKIE, HeaderValue::from_static("a")).unwrap();
+    let mut holder = CallHolder::WithoutBody(call);
+    holder.convert_to_send_body();
+    assert!(holder_kind(&holder) == 1, "C09/despite-method-holder-is-with-body");
+    // (the request analysis is not run here: with a caller-added header its five header passes do not finish)
+    let ar = holder.request();
+    assert!(ar.headers_len() == 1, "C16/caller-added-header-survives-despite-method-conversion");
+    let first_is_cookie = match ar.headers().next() {
+        Some((k, _)) => *k == http::header::COOKIE,
+        None => false,
+    };
+    assert!(first_is_cookie, "C16/caller-added-headers-first-in-order");
+    kani::cover!(true, "reached");
+    core::mem::forget(holder);
+}
